@@ -32,20 +32,45 @@
 (*   StampAt     "stat" | "after"   the stamp reload remembers is the one  *)
 (*                                  its stat returned before the parse |   *)
 (*                                  one taken by a second stat after it    *)
+(*   ObsFanout   "map" | "list"     a notification round calls what is     *)
+(*                                  registered under each name NOW | the   *)
+(*                                  entries of a registration-ordered list *)
+(*                                  that grows only with NEW names         *)
+(*   GoneApply   "atomic" | "split" a file that disappeared: the map is    *)
+(*                                  replaced by the defaults in one        *)
+(*                                  critical section | emptied in one and  *)
+(*                                  filled in a second one                 *)
+(*   EnvWhen     "absent" | "empty" a getter falls back to the process     *)
+(*                                  environment when the key is absent     *)
+(*                                  from the map | when its value is empty *)
+(*                                                                         *)
+(* The configuration space is more than the file: the observers registered *)
+(* (a registry name -> observer that is written at any time: Add under a   *)
+(* new name, Add under an existing name REPLACES), the process environment *)
+(* (a key absent from the map is answered from the variable of that name;  *)
+(* a key the file sets -- also to the empty value -- is answered from the  *)
+(* file) and the existence of the file (a file that disappears after it    *)
+(* was loaded resets the map to the library's defaults, without telling    *)
+(* the observers -- the property speaks of the file's key=value pairs and  *)
+(* is silent here; what it does require is that no getter ever sees a map  *)
+(* that is neither the version before nor the version after).              *)
 (***************************************************************************)
 EXTENDS FsWrite, Bytes
 
-CONSTANTS Granularity, Locking, KeepEmpty, StampAt
+CONSTANTS Granularity, Locking, KeepEmpty, StampAt, ObsFanout, GoneApply, EnvWhen
 
 VARIABLES mem,       \* in-memory map: key -> value (raw, untrimmed)
           lastSeen,  \* stamp of the version last loaded
-          note,      \* the map the observers were shown at the last notification
+          note,      \* [m, due]: observer -> the map it was last shown; the observers registered when
+                     \* the last notification round ran
           nnote,     \* number of notification rounds so far
-          rl,        \* the reload in progress: [pc, snap, todo, dirty]
+          rl,        \* the reload in progress: [pc, snap, todo, dirty, from, to]
           busy,      \* the map is being mutated right now
           fatal,     \* a getter ran into the map while it was being mutated
           fresh,     \* a complete reload that began after the last change of the file has finished
-          opt,       \* [pre, suf, excl, nobs]: write-back key prefix/suffix/excluded keys, observers
+          opt,       \* [pre, suf, excl]: write-back key prefix/suffix/excluded keys;
+                     \* [reg, lst]: observer registry name -> observer, and the names' first observers in
+                     \* registration order; [env]: process environment; [defs]: the library's defaults
           wkv        \* the key/value map of the write-back in progress (after prefix/suffix/exclusion)
 
 cvars == <<mem, lastSeen, note, nnote, rl, busy, fatal, fresh, opt, wkv>>
@@ -165,14 +190,20 @@ Val(L, k) == IF k \in KeysOf(L) THEN ParseMap(L)[k] ELSE <<>>
 \* P where it is defined, m elsewhere (@@ yields an evaluated function, not a lazy one)
 Merge(m, P) == P @@ m
 
-File == Content(Conf)
+\* the file as the poller and the parser find it (a file that is not there has no lines)
+File == IF Exists(Conf) THEN Content(Conf) ELSE <<>>
 Parsed == LET P == ParseMap(File)
           IN IF KeepEmpty THEN P ELSE [k \in {x \in DOMAIN P : P[x] # <<>>} |-> P[k]]
 
 ---------------------------------------------------------------------------
 (* typed getters: pure functions of the in-memory map *)
 
-Raw(k) == IF k \in DOMAIN mem THEN Trim(mem[k]) ELSE <<>>
+\* what a getter starts from: the map's trimmed value of a key the map has (an empty one included);
+\* a key the map does not have is answered from the process environment (as it is, untrimmed)
+EnvVal(k) == IF k \in DOMAIN opt.env THEN opt.env[k] ELSE <<>>
+Raw(k) == IF EnvWhen = "empty"
+            THEN Bind(IF k \in DOMAIN mem THEN Trim(mem[k]) ELSE <<>>, LAMBDA t : IF t # <<>> THEN t ELSE EnvVal(k))
+            ELSE IF k \in DOMAIN mem THEN Trim(mem[k]) ELSE EnvVal(k)
 GetValue(k) == Raw(k)
 GetValueDef(k, d) == Bind(Raw(k), LAMBDA r : IF r = <<>> THEN d ELSE r)
 GetBoolean(k, d) == Bind(Raw(k), LAMBDA r : IF r \in BoolTrue THEN TRUE ELSE IF r \in BoolFalse THEN FALSE ELSE d)
@@ -223,14 +254,36 @@ RenderOK(L, kv, after) ==
      /\ {A[i] : i \in (Len(E) + 1)..Len(A)} = {KvLine(k, kv[k]) : k \in NK}
 
 ---------------------------------------------------------------------------
+Never == <<-1, -1>>      \* lastSeen: no version was ever loaded
+Gone  == <<-2, -2>>      \* lastSeen: the file had been loaded and was then found missing
+RlIdle == [pc |-> "idle", snap |-> <<>>, todo |-> {}, dirty |-> FALSE, from |-> <<>>, to |-> <<>>]
+NoNote == [m |-> <<>>, due |-> {}]
+
 Init0(c0, o) ==
   /\ FsInit(c0)
-  /\ mem = <<>> /\ lastSeen = <<-1, -1>> /\ note = <<>> /\ nnote = 0
-  /\ rl = [pc |-> "idle", snap |-> <<>>, todo |-> {}, dirty |-> FALSE]
+  /\ mem = <<>> /\ lastSeen = Never /\ note = NoNote /\ nnote = 0
+  /\ rl = RlIdle
   /\ busy = FALSE /\ fatal = FALSE /\ fresh = FALSE
   /\ opt = o /\ wkv = <<>>
 
-NoOpt == [pre |-> <<>>, suf |-> <<>>, excl |-> {}, nobs |-> 1]
+\* one observer (number 0) registered under one name, an empty environment, no defaults
+NoOpt == [pre |-> <<>>, suf |-> <<>>, excl |-> {}, reg |-> (<<111>> :> 0), lst |-> <<0>>, env |-> <<>>, defs |-> <<>>]
+
+---------------------------------------------------------------------------
+(* the observer registry *)
+
+\* the observers registered now (one observer may be registered under several names)
+Ids == {opt.reg[n] : n \in DOMAIN opt.reg}
+\* whom a notification round calls
+Called == IF ObsFanout = "list" THEN {opt.lst[i] : i \in 1..Len(opt.lst)} ELSE Ids
+\* the record of a notification round that showed map m
+Told(m) == [m |-> [i \in Called |-> m] @@ note.m, due |-> Ids]
+
+\* Add(name, observer): a new name is added, an existing name is given to the new observer
+ObsAdd(n, i) ==
+  /\ opt' = [opt EXCEPT !.reg = (n :> i) @@ opt.reg,
+                        !.lst = IF n \in DOMAIN opt.reg THEN opt.lst ELSE Append(opt.lst, i)]
+  /\ UNCHANGED <<fsvars, mem, lastSeen, note, nnote, rl, busy, fatal, fresh, wkv>>
 
 Dead == Crashed \/ fatal
 
@@ -244,38 +297,90 @@ Touched == /\ fresh' = FALSE
 ---------------------------------------------------------------------------
 (* the external writer *)
 
+\* the file replaced as a whole; a file that is not there is created
 ExtEdit(L, stamp) ==
   /\ w.pc \in {"idle", "done"}
-  /\ Exists(Conf)
-  /\ data' = [data EXCEPT ![dir[Conf]] = L]
-  /\ mt' = [mt EXCEPT ![dir[Conf]] = stamp]
+  /\ IF Exists(Conf)
+       THEN /\ data' = [data EXCEPT ![dir[Conf]] = L]
+            /\ mt' = [mt EXCEPT ![dir[Conf]] = stamp]
+            /\ dir' = dir
+       ELSE /\ data' = Append(data, L)
+            /\ mt' = Append(mt, stamp)
+            /\ dir' = (Conf :> (Len(data) + 1)) @@ dir
   /\ w' = Idle                        \* a finished write-back is over
   /\ Touched
-  /\ UNCHANGED <<dir, fdt, sec, mem, lastSeen, note, nnote, busy, fatal, opt, wkv>>
+  /\ UNCHANGED <<fdt, sec, mem, lastSeen, note, nnote, busy, fatal, opt, wkv>>
+
+\* the file deleted or renamed away (its inode stays, nameless)
+ExtDelete ==
+  /\ w.pc \in {"idle", "done"}
+  /\ Exists(Conf)
+  /\ dir' = Restrict(dir, DOMAIN dir \ {Conf})
+  /\ w' = Idle
+  /\ Touched
+  /\ UNCHANGED <<data, mt, fdt, sec, mem, lastSeen, note, nnote, busy, fatal, opt, wkv>>
 
 \* model checking: the stamp is the clock's
-Edit(L) == /\ L # File
+Edit(L) == /\ (Exists(Conf) => L # File)
            /\ ExtEdit(L, Now)
            /\ modn' = modn + 1
+Delete == /\ ExtDelete
+          /\ modn' = modn + 1
 
 ---------------------------------------------------------------------------
 (* reload, step by step (model checking) *)
+
+\* the file is not there: nothing to do if no version was ever loaded or the defaults are in
+\* place already; otherwise the map is to be replaced by the defaults
+GoneNews == ~Exists(Conf) /\ lastSeen \notin {Never, Gone}
 
 RlStat ==
   /\ rl.pc = "idle" /\ ~Dead
   /\ IF Changed
        THEN /\ lastSeen' = IF StampAt = "after" THEN lastSeen ELSE Stamp(Conf)
-            /\ rl' = [pc |-> "parse", snap |-> <<>>, todo |-> {}, dirty |-> FALSE]
+            /\ rl' = [RlIdle EXCEPT !.pc = "parse"]
             /\ UNCHANGED fresh
-       ELSE /\ fresh' = TRUE
-            /\ UNCHANGED <<lastSeen, rl>>
+       ELSE IF GoneNews
+         THEN /\ lastSeen' = Gone
+              /\ rl' = [RlIdle EXCEPT !.pc = "gone", !.from = mem, !.to = opt.defs]
+              /\ UNCHANGED fresh
+         ELSE /\ fresh' = TRUE
+              /\ UNCHANGED <<lastSeen, rl>>
   /\ UNCHANGED <<fsvars, mem, note, nnote, busy, fatal, opt, wkv>>
 
 RlParse ==
   /\ rl.pc = "parse" /\ ~Dead
   /\ Exists(Conf)
-  /\ rl' = [rl EXCEPT !.pc = IF StampAt = "after" THEN "restat" ELSE "apply", !.snap = Parsed, !.todo = DOMAIN Parsed]
+  /\ rl' = [rl EXCEPT !.pc = IF StampAt = "after" THEN "restat" ELSE "apply", !.snap = Parsed, !.todo = DOMAIN Parsed,
+                      !.from = mem, !.to = Merge(mem, Parsed)]
   /\ UNCHANGED <<fsvars, mem, lastSeen, note, nnote, busy, fatal, fresh, opt, wkv>>
+
+\* the file vanished between the stat and the read: the parser fails, the poll is over (the stamp
+\* of the version that could not be read stays remembered; the next poll finds the file missing)
+RlParseFail ==
+  /\ rl.pc = "parse" /\ ~Dead
+  /\ ~Exists(Conf)
+  /\ rl' = RlIdle
+  /\ UNCHANGED <<fsvars, mem, lastSeen, note, nnote, busy, fatal, fresh, opt, wkv>>
+
+\* the defaults replace the map: one critical section (GoneApply = "atomic"), or one that
+\* empties the map and a second one that fills it ("split")
+RlGoneBegin ==
+  /\ rl.pc \in {"gone", "gone2"} /\ ~Dead /\ ~busy
+  /\ busy' = TRUE
+  /\ UNCHANGED <<fsvars, mem, lastSeen, note, nnote, rl, fatal, fresh, opt, wkv>>
+
+RlGoneEnd ==
+  /\ rl.pc \in {"gone", "gone2"} /\ ~Dead /\ busy
+  /\ busy' = FALSE
+  /\ IF rl.pc = "gone" /\ GoneApply = "split"
+       THEN /\ mem' = <<>>
+            /\ rl' = [rl EXCEPT !.pc = "gone2"]
+            /\ UNCHANGED fresh
+       ELSE /\ mem' = IF rl.pc = "gone" THEN opt.defs ELSE Merge(mem, opt.defs)
+            /\ rl' = RlIdle
+            /\ fresh' = ~rl.dirty
+  /\ UNCHANGED <<fsvars, lastSeen, note, nnote, fatal, opt, wkv>>
 
 \* (StampAt = "after" only) the second stat: whatever the file is NOW is remembered as loaded
 RlRestat ==
@@ -310,9 +415,9 @@ RlApplyEnd ==
 
 RlNotify ==
   /\ rl.pc = "apply" /\ ~Dead /\ ~busy /\ rl.todo = {}
-  /\ note' = IF opt.nobs > 0 THEN mem ELSE note
+  /\ note' = Told(mem)
   /\ nnote' = nnote + 1
-  /\ rl' = [rl EXCEPT !.pc = "idle"]
+  /\ rl' = RlIdle
   /\ fresh' = ~rl.dirty
   /\ UNCHANGED <<fsvars, mem, lastSeen, busy, fatal, opt, wkv>>
 
@@ -333,9 +438,13 @@ ReloadAtomic ==
   /\ IF Changed
        THEN /\ lastSeen' = Stamp(Conf)
             /\ mem' = Merge(mem, Parsed)
-            /\ note' = IF opt.nobs > 0 THEN Merge(mem, Parsed) ELSE note
+            /\ note' = Told(Merge(mem, Parsed))
             /\ nnote' = nnote + 1
-       ELSE UNCHANGED <<lastSeen, mem, note, nnote>>
+       ELSE IF GoneNews
+         THEN /\ lastSeen' = Gone
+              /\ mem' = opt.defs
+              /\ UNCHANGED <<note, nnote>>
+         ELSE UNCHANGED <<lastSeen, mem, note, nnote>>
   /\ fresh' = TRUE
   /\ UNCHANGED <<fsvars, rl, busy, fatal, opt, wkv>>
 
@@ -374,6 +483,11 @@ SvAtomic(kv, after, stamp) ==
   /\ Touched
   /\ UNCHANGED <<dir, fdt, sec, modn, mem, lastSeen, note, nnote, busy, fatal, opt>>
 
+\* a write-back when the file is not there: its read fails, nothing is written
+SvGone ==
+  /\ ~Dead /\ w.pc \in {"idle", "done"} /\ ~Exists(Conf)
+  /\ UNCHANGED vars
+
 ---------------------------------------------------------------------------
 (* the property *)
 
@@ -383,8 +497,25 @@ Visible(m) == \A k \in KeysOf(File) : k \in DOMAIN m /\ m[k] = ParseMap(File)[k]
 \* (and so is what the getters below compute from)
 EventuallyVisible == (fresh /\ ~Dead) => Visible(mem)
 
-\* ... and the observers have been called with a configuration that shows it
-ObserversNotified == (fresh /\ ~Dead /\ opt.nobs > 0) => Visible(note)
+\* ... and through the getters: a key the file sets is answered from the file, also when the
+\* file sets it to the empty value and the environment has a variable of that name
+VisibleThroughGetters == (fresh /\ ~Dead) => \A k \in KeysOf(File) : GetValue(k) = Trim(ParseMap(File)[k])
+
+\* ... and every observer that is registered now and was registered when the last notification
+\* round ran -- under a new name or in place of another one -- has been shown a configuration
+\* that shows it
+ObserversNotified == (fresh /\ ~Dead) => \A i \in note.due \cap Ids : i \in DOMAIN note.m /\ Visible(note.m[i])
+
+\* a file that disappeared (after it had been loaded): the configuration is the defaults
+DefaultsWhenGone == (fresh /\ ~Dead /\ ~Exists(Conf) /\ lastSeen = Gone) => mem = opt.defs
+
+\* whenever the lock is free -- whenever a getter can run -- every key has the value it had before
+\* the reload in progress began to write the map or the value it will have when it is done: no
+\* getter sees a configuration that is neither (e.g. the empty map between "emptied" and "defaults
+\* filled in")
+Look(m, k) == IF k \in DOMAIN m THEN <<m[k]>> ELSE <<>>
+NoTornState == (~busy /\ rl.pc \in {"apply", "gone", "gone2"}) =>
+                  \A k \in DOMAIN mem \cup DOMAIN rl.from \cup DOMAIN rl.to : Look(mem, k) \in {Look(rl.from, k), Look(rl.to, k)}
 
 \* getters never meet a half-updated map
 NoFatal == ~fatal
@@ -419,5 +550,6 @@ CommentsAndOrderSurvive ==
 WriteReadBack == Active => \A k \in DOMAIN wkv : Val(WbNew, k) = wkv[k]
 
 InvFile == MergeKeepsOthers /\ CommentsAndOrderSurvive /\ WriteReadBack
-InvAll == EventuallyVisible /\ ObserversNotified /\ NoFatal /\ GettersTotal /\ InvFile /\ AtomicOnDisk /\ WriteInstalls
+InvAll == EventuallyVisible /\ VisibleThroughGetters /\ ObserversNotified /\ DefaultsWhenGone /\ NoTornState /\ NoFatal
+          /\ GettersTotal /\ InvFile /\ AtomicOnDisk /\ WriteInstalls
 =============================================================================
